@@ -124,7 +124,9 @@ def project(raw_events, scenario, bound=None):
     invinfo = {}
     for ev in raw_events:
         if ev.get("ev") == "InvokeCall":
-            invinfo[ev["k"]] = {"ctx": ev.get("ctx", ""), "trace": ev.get("trace", ""), "now": ev.get("nowMs", 0)}
+            invinfo[ev["k"]] = {"ctx": ev.get("ctx", ""), "trace": ev.get("trace", ""), "now": ev.get("nowMs", 0),
+                                "seq": ev.get("seq", 0)}
+    reserve_at = [(ev.get("seq", 0), ev.get("nowMs", 0)) for ev in raw_events if ev.get("ev") == "ReserveAt"]
     timeout_ms = opt.get("timeoutMs", 2000)
 
     def data_class(ev, k, is_rt):
@@ -140,8 +142,13 @@ def project(raw_events, scenario, bound=None):
             return "data-bad-deadline"
         # deadline = arrival time + function timeout, whenever the event is handed over
         # (one-sided slack for the harness' own time stamp taken just before Server.Invoke is entered)
+        # lower bound: the harness' time stamp taken just before Server.Invoke is entered; upper bound: the time at
+        # which a request goroutine reached Reserve (pause point server.beforeReserve, recorded by the harness)
+        # between this invocation's arrival and the delivery, so that scheduling delays of the harness machine
+        # between the two do not count
         lo = info["now"] + timeout_ms - 3
-        hi = info["now"] + timeout_ms + 25
+        later = [now for sq, now in reserve_at if info["seq"] < sq < ev.get("seq", 1 << 60)]
+        hi = (max(later) if later else info["now"]) + timeout_ms + 25
         if not (lo <= dl <= hi):
             return "data-bad-deadline"
         if is_rt and (ev.get("ctx", "") or "") != info["ctx"]:
